@@ -718,17 +718,21 @@ Fixpoint waiting_spec (fuel : nat) (g : list tdesc) (sts : list status) (t : nat
   | O => false
   | S f =>
     let deps := if seqb (nth t sts Hold) Do then waits_g g t else halts_of g t in
+    (* written with if-then-else throughout: vm_compute is strict in the arguments of andb / orb *)
     let waitish := fun d => let sd := nth d sts Hold in
-                            seqb sd Wait || ((seqb sd Do || seqb sd Undo) && waiting_spec f g sts d) in
-    forallb (fun d => ready (nth d sts Hold) || waitish d) deps && existsb waitish deps
+                            if seqb sd Wait then true
+                            else if seqb sd Do || seqb sd Undo then waiting_spec f g sts d else false in
+    if forallb (fun d => if ready (nth d sts Hold) then true else waitish d) deps then existsb waitish deps
+    else false
   end.
 
 Definition change_waiting_spec (g : list tdesc) (sts : list status) : bool :=
-  existsb (fun x => seqb x Wait) sts
-  && forallb (fun t => let x := nth t sts Hold in
-                       ready x || seqb x Wait
-                       || ((seqb x Do || seqb x Undo) && waiting_spec (S (length g)) g sts t))
-             (seq 0 (length g)).
+  if existsb (fun x => seqb x Wait) sts
+  then forallb (fun t => let x := nth t sts Hold in
+                         if ready x || seqb x Wait then true
+                         else if seqb x Do || seqb x Undo then waiting_spec (S (length g)) g sts t else false)
+               (seq 0 (length g))
+  else false.
 
 (* the documented aggregate: Wait when everything pending is blocked on waiting tasks, otherwise the first status of
    the priority list Abort Undoing Undo Doing Do Wait Error Undone Done Hold that some task has; no tasks: Hold *)
